@@ -7,8 +7,9 @@ func init() {
 // VH_C14_SplitStorage: values that straddle frame boundaries, with the receive
 // buffer behaving as the real bytes.Buffer does (vRealBuffer: real capacity
 // growth, and real reuse of storage that earlier Next/Bytes results alias) rather
-// than the re-allocating model the other harnesses use. Eleven integers of
-// arbitrary value, an int32 and a char are written, the wire bytes are re-cut
+// than the re-allocating model the other harnesses use. Eight integers of
+// arbitrary value around a string and a raw byte field, an int32 and a char are
+// written (strings NUL-terminated or length-prefixed), the wire bytes are re-cut
 // either into two frames at every position or into equal frames of every size
 // 4..67, and the typed readers must return the values sent: a reader that keeps a
 // slice of the buffer across the arrival of the next frame reads whatever that
@@ -18,15 +19,29 @@ func init() {
 func VH_C14_SplitStorage() {
 	vRealBuffer(true)
 	defer vRealBuffer(false)
-	w := &vhStream{}
+	enc := vBool("length_prefixed_strings")
+	w := &vhStream{enc: enc}
 	m := NewMessageForStream(w)
-	names := [11]string{"v0", "v1", "v2", "v3", "v4", "v5", "v6", "v7", "v8", "v9", "v10"}
-	var vals [11]int64
-	for i := range vals {
+	names := [8]string{"v0", "v1", "v2", "v3", "v4", "v5", "v6", "v7"}
+	var vals [8]int64
+	put := func(i int) {
 		vals[i] = vInt64(names[i])
 		if m.PutInt64(vhCtx, vals[i]) != nil {
 			vAssume(false)
 		}
+	}
+	for i := 0; i < 5; i++ {
+		put(i)
+	}
+	// a string and a raw byte field in the middle (text concrete: the plain-text
+	// string reader scans byte by byte; the raw bytes are arbitrary)
+	const text = "frame-straddling text"
+	raw := vBlob("raw", 19)
+	if m.PutString(vhCtx, text) != nil || m.PutBytes(vhCtx, raw) != nil {
+		vAssume(false)
+	}
+	for i := 5; i < 8; i++ {
+		put(i)
 	}
 	i32 := vInt32("w32")
 	ch := vByte("ch")
@@ -34,8 +49,7 @@ func VH_C14_SplitStorage() {
 		vAssume(false)
 	}
 	wire := w.all()
-	vAssert(len(wire) == 97, "reference-byte-layout")
-	r := &vhStream{}
+	r := &vhStream{enc: enc}
 	if vBool("equal_frames") {
 		f := 4 + vChoice("frame_size", 64)
 		for o := 0; o < len(wire); o += f {
@@ -46,14 +60,30 @@ func VH_C14_SplitStorage() {
 			r.feed(wire[o:e], e == len(wire))
 		}
 	} else {
-		c := 1 + vChoice("cut", 96)
+		c := 1 + vChoice("cut", 120)
+		if c >= len(wire) {
+			c = len(wire) - 1
+		}
 		r.feed(wire[:c], false)
 		r.feed(wire[c:], true)
 	}
 	rm := NewMessageFromStream(r)
-	for i := range vals {
+	get := func(i int) {
 		g, err := rm.GetInt64(vhCtx)
 		vAssert(err == nil && g == vals[i], "int64-roundtrip-any-cut")
+	}
+	for i := 0; i < 5; i++ {
+		get(i)
+	}
+	gs, serr := rm.GetString(vhCtx)
+	vAssert(serr == nil && gs == text, "string-roundtrip-any-cut")
+	gb, berr := rm.GetBytes(vhCtx, 19)
+	vAssert(berr == nil && len(gb) == 19, "bytes-roundtrip-any-cut")
+	if berr == nil && len(gb) == 19 {
+		vAssertBytesEqual(gb, raw, "bytes-roundtrip-any-cut")
+	}
+	for i := 5; i < 8; i++ {
+		get(i)
 	}
 	g32, err := rm.GetInt32(vhCtx)
 	vAssert(err == nil && g32 == i32, "int32-roundtrip-any-cut")
